@@ -106,9 +106,12 @@ def _excluded(origin):
     return b.startswith("test_") or b.endswith("_pb2.py")
 
 
+EXTRA_MODULES = {"ref.wabinary"}      # harness-side reference code that must also run on proxies
+
+
 class Finder(importlib.abc.MetaPathFinder):
     def find_spec(self, fullname, path, target=None):
-        if not (fullname == "yowsup" or fullname.startswith("yowsup.")):
+        if not (fullname == "yowsup" or fullname.startswith("yowsup.") or fullname in EXTRA_MODULES):
             return None
         spec = importlib.machinery.PathFinder.find_spec(fullname, path)
         if spec and isinstance(spec.loader, importlib.machinery.SourceFileLoader) and not _excluded(spec.origin):
